@@ -1,6 +1,7 @@
 package main
 
 import (
+	"bytes"
 	"encoding/json"
 	"fmt"
 	"math/rand"
@@ -116,6 +117,15 @@ func c02Case(t listTemplate, decs []chunk, blank bool, hist []editOp) (sig, what
 	want := canonical(t.text(mk(last.RA), mk(rb), blank))
 	if want == "" {
 		return "", "", false
+	}
+	// the same tree through a restorer that also restores objects and scopes (Extras)
+	var xbuf bytes.Buffer
+	var xerr error
+	if msg := guard(func() { xr := decorator.NewRestorer(); xr.Extras = true; xerr = xr.Fprint(&xbuf, f) }); msg != "" || xerr != nil {
+		return "edit-print-fails", fmt.Sprintf("with Restorer.Extras: %s %v", msg, xerr), true
+	}
+	if xbuf.String() != got {
+		return "list-edit-extras-text-differs", fmt.Sprintf("%s: after %s the tree prints\n%s\nbut with Restorer.Extras = true\n%s", t.Name, histString(hist), got, xbuf.String()), true
 	}
 	if got != want {
 		return "list-edit-text-differs", fmt.Sprintf("%s: after %s the tree prints\n%s\nbut the chunk-edited source formats to\n%s", t.Name, histString(hist), got, want), true
